@@ -214,6 +214,10 @@ def run(ctx):
                     label="non-vacuity: the model of the code before 6f6002f (WBFlock = FALSE) has the overwrite race")
         if r.violated != "NoViolation":
             raise vlib.InfraError("MC_C04_nofix.cfg was expected to refute NoViolation:\n" + r.tail())
+        r = ctx.tlc(SD, "KeepVolume", "MC_C04_idxabort.cfg", timeout=600, must_pass=False,
+                    label="model of the code as it is: GET /index can abort (IndexTo panics on a vanished entry)")
+        if r.violated != "IndexNeverAborts":
+            raise vlib.InfraError("MC_C04_idxabort.cfg was expected to refute IndexNeverAborts:\n" + r.tail())
         ctx.tlc(SD, "KeepVolume", "MC_C04_idx2.cfg", timeout=1500,
                 label="exhaustive: pairs of PUT|pull, DELETE|trash item, GET /index on 2 volumes")
         ctx.tlc(SD, "KeepVolume", "MC_C04_x.cfg", timeout=1500,
